@@ -358,11 +358,11 @@ func c09Closed(b *backend.BfeBackend) bool {
 }
 
 type c09Runner struct {
-	r     *vkit.Run
-	h     *c09Hist
-	t     *bfe_balance.BalTable
-	m     c09Model
-	step  int
+	r    *vkit.Run
+	h    *c09Hist
+	t    *bfe_balance.BalTable
+	m    c09Model
+	step int
 }
 
 func (x *c09Runner) wit(extra map[string]interface{}) map[string]interface{} {
@@ -717,7 +717,9 @@ func c09Run(r *vkit.Run, h *c09Hist, t *bfe_balance.BalTable) {
 				}(w)
 			}
 			var rerr error
-			panicked := try(r, func() interface{} { return map[string]interface{}{"history": h, "step": x.step, "in": "BalTableReload"} }, func() {
+			panicked := try(r, func() interface{} {
+				return map[string]interface{}{"history": h, "step": x.step, "in": "BalTableReload"}
+			}, func() {
 				rerr = t.BalTableReload(gc, tc)
 			})
 			close(stop)
